@@ -30,6 +30,12 @@ DOMAINS = ['Check', 'Design']
 
 CAP_VALID = 300
 
+# the conjuncts of DerivedFrag.dfrag_why, in order
+DFRAG_WHY = ["hidden-factor", "factor-without-level", "derived-from-factor-absent-in-some-trial", "sustain-not-dividing-trials",
+             "sustain-constraint-missing", "LatinSquare-or-ExactlyKMultipleInARow", "Exclude-of-crossed-factor",
+             "constraint-guard(ranges/pin/sequential-preamble)", "crossing-with-excluded-or-impossible-combination",
+             "crossing-geometry", "crossed-factor-absent-after-preamble"]
+
 
 # --------------------------------------------------------------------------- programs
 
@@ -607,8 +613,29 @@ def run(ctx, res):
             fit = iter(fr[1])
         stats["theorem-fragment:programs:" + ("in" if in_frag else "out")] += 1
         frag_list = [(next(fit, None) if r is not None else None) for r in pr["rows"]]
+        # the fragment of theorem C17_mismatch_iff_valid_derived (dfrag: nfrag + derived factors), same evaluation
+        in_dfrag = False
+        dit = iter(())
+        if not fv.startswith("!") and len(fr) >= 5:
+            in_dfrag = (fr[2] == "true")
+            dit = iter(fr[4])
+            if in_dfrag:
+                has_derived = any(f["kind"] == "derived" for f in program["factors"])
+                stats["theorem-fragment-derived:programs:in:" +
+                      ("no-derived-factor" if in_frag else "within-trial-only" if fr[3] == "true" else "transition-or-window")] += 1
+                if in_dfrag and not in_frag and not has_derived:
+                    stats["theorem-fragment-derived:programs:in-without-derived-but-outside-nfrag"] += 1
+            if in_frag and not in_dfrag:
+                stats["theorem-fragment-derived:programs:nfrag-but-not-dfrag"] += 1
+        stats["theorem-fragment-derived:programs:" + ("in" if in_dfrag else "out")] += 1
+        if not in_dfrag and not fv.startswith("!") and len(fr) >= 6:
+            # first failing conjunct of dfrag (DerivedFrag.dfrag_why)
+            why = [x == "true" for x in fr[5]]
+            first = why.index(False) if False in why else len(why)
+            stats["theorem-fragment-derived:programs:out:" + (DFRAG_WHY[first] if first < len(DFRAG_WHY) else "?")] += 1
+        dfrag_list = [(next(dit, None) if r is not None else None) for r in pr["rows"]]
         nontrivial = bool(program["constraints"]) or any(f["kind"] == "derived" for f in program["factors"]) or bool(blk.crossings)
-        for (kind, q), smp, wv, valid, fragv in zip(pr["cands"], pr["samples"], pr["wires"], ovalid, frag_list):
+        for (kind, q), smp, wv, valid, fragv, dfragv in zip(pr["cands"], pr["samples"], pr["wires"], ovalid, frag_list, dfrag_list):
             if wv is None:
                 stats["cands:unresolvable-key"] += 1
                 continue
@@ -639,6 +666,17 @@ def run(ctx, res):
                 # code_sem_n fb vs doc_sem program on this candidate (T2: chunk geometry, windows, trial count)
                 if (fragv[2] == "true") != valid:
                     stats["theorem-fragment:code_sem-vs-doc_sem-differ"] += 1
+            # --- the same for C17_mismatch_iff_valid_derived: inside dfrag and wf_rowsb_d, no_mismatch = valid_b (code_sem_d fb)
+            if in_dfrag and dfragv is not None and dfragv[0] == "true":
+                ok_t = (dfragv[1] == dfragv[2])
+                res.layer("theorem-instance:no_mismatch=valid_b(code_sem_d)", ok_t)
+                if not ok_t:
+                    corr_bad.append((pr["name"], program, smp, "extracted theorem instance (derived) fails: %r" % (dfragv,)))
+                stats["theorem-fragment-derived:candidates"] += 1
+                if not in_frag:
+                    stats["theorem-fragment-derived:candidates:beyond-nfrag"] += 1
+                if (dfragv[2] == "true") != valid:
+                    stats["theorem-fragment-derived:code_sem-vs-doc_sem-differ"] += 1
             # --- search: the property itself, on candidates of its domain
             dom = in_domain(ds, pr["app"], q)
             stats["domain:" + ("in" if dom else "out")] += 1
